@@ -74,6 +74,9 @@ type Case struct {
 	Alg    byte   `json:"alg"`
 	Body   []byte `json:"body"` // event body as written (what the checksum-less twin carries)
 	W      Want   `json:"want"`
+	// Hist: events decoded right before this one in the same process (the
+	// counterexample of a sequential walk is the whole sequence)
+	Hist []Case `json:"hist,omitempty"`
 }
 
 func flavor(maria bool) string {
@@ -143,6 +146,10 @@ func diffAt(got, want []byte) string {
 
 // Check decodes the case and returns ("", "") or (failing clause, description).
 func Check(c *Case) (clause, why string) {
+	for i := range c.Hist {
+		h := c.Hist[i]
+		chk.Catch(func() { check1(&h) })
+	}
 	pan := chk.Catch(func() { clause, why = check1(c) })
 	if pan != "" {
 		// the goroutine number of the stack dump is not part of the observation
@@ -921,6 +928,60 @@ func (e *env) queries() {
 		"oracle": "Database, SQL byte for byte; Charset = the triple written (nil iff Q_CHARSET_CODE absent)"})
 }
 
+// queryWalk decodes QUERY events one right after the other whose session
+// charsets differ in exactly one of the three collations (each component in
+// turn is the fastest-varying one, ascending and descending): a decoder that
+// interns or caches what it decoded from an earlier event under a key that does
+// not cover the whole triple hands the later event a stale value.
+func (e *env) queryWalk() {
+	vals := []uint16{8, 33, 45, 83, 255, 256, 65535, 0}
+	orders := [][3]int{{0, 1, 2}, {1, 2, 0}, {2, 0, 1}}
+	var prev *Case
+	n := int64(0)
+	for _, ord := range orders {
+		for pass := 0; pass < 2; pass++ {
+			for a := range vals {
+				for b := range vals {
+					for c0 := range vals {
+						c := c0
+						if pass == 1 {
+							c = len(vals) - 1 - c0
+						}
+						var cs [3]uint16
+						cs[ord[0]], cs[ord[1]], cs[ord[2]] = vals[a], vals[b], vals[c]
+						alg, hl := algs[int(n)%len(algs)], hdrLens[int(n/3)%len(hdrLens)]
+						body := ref.BodyQuery(ref.QueryBody{ThreadID: 7, Vars: []ref.StatusVar{ref.CharsetVar(cs[0], cs[1], cs[2])}, DB: "d", SQL: "create table t(a int)"})
+						cse := e.event("query", "walk:charset", alg, hl, ref.Header{Timestamp: 1, Type: ref.EvQuery, ServerID: 3}, body, 1000)
+						cse.W.DB, cse.W.SQL = []byte("d"), []byte("create table t(a int)")
+						cse.W.HasCharset, cse.W.Client, cse.W.Conn, cse.W.Server = true, int32(cs[0]), int32(cs[1]), int32(cs[2])
+						cse.Maria = n%2 == 1
+						clause, why := "", ""
+						// (the plain case first: its own history is what came before in this walk)
+						pan := chk.Catch(func() { clause, why = check1(cse) })
+						if pan != "" {
+							clause, why = "panic", firstLine(pan)
+						}
+						if clause != "" {
+							if prev != nil {
+								cse.Hist = []Case{*prev}
+								why += fmt.Sprintf(" (decoded right after an event with client:%d conn:%d server:%d in the same process)", prev.W.Client, prev.W.Conn, prev.W.Server)
+							}
+							e.rp.fail(cse, clause, why)
+						}
+						n++
+						p := *cse
+						p.Hist = nil
+						prev = &p
+					}
+				}
+			}
+		}
+	}
+	e.evals.Add(n)
+	e.distinct.Add(n)
+	e.r.Set("query_charset_walk", fmt.Sprintf("%d QUERY events decoded back to back, the charset triple over %v^3 with each component in turn varying fastest, ascending and descending", n, vals))
+}
+
 func (e *env) smallBodies() {
 	r := e.r
 	l64 := lattice64(r.Thorough())
@@ -1053,7 +1114,7 @@ func run(r *chk.Run) {
 	for _, sec := range []struct {
 		name string
 		fn   func()
-	}{{"format_description", e.formats}, {"header", e.headers}, {"rotate", e.rotates}, {"xid_intvar_rand", e.smallBodies}, {"gtid", e.gtids}, {"query", e.queries}} {
+	}{{"format_description", e.formats}, {"header", e.headers}, {"rotate", e.rotates}, {"xid_intvar_rand", e.smallBodies}, {"gtid", e.gtids}, {"query_walk", e.queryWalk}, {"query", e.queries}} {
 		t0, e0 := time.Now(), e.evals.Load()
 		sec.fn()
 		r.Set("section_"+sec.name, fmt.Sprintf("%d evaluations in %.1fs", e.evals.Load()-e0, time.Since(t0).Seconds()))
